@@ -103,12 +103,15 @@ Proof.
 Qed.
 
 Lemma check_loop_func_tie st fname args :
-  Checker.check_loop_func fname (match args with a :: _ => ref_key a | [] => None end) (conv st)
+  Checker.check_loop_func fname (loop_arg args) (conv st)
   = match Compile.check_loop_func st fname args with Some e => CR (cls e) | None => CO (conv st) end.
 Proof.
   unfold Checker.check_loop_func, Compile.check_loop_func. rewrite loop_names_k.
   destruct (contains loop_func_names fname); [|reflexivity].
-  destruct args as [|a r]; [reflexivity|]. destruct a; try reflexivity. cbn [ref_key conv vars].
+  destruct args as [|a [|a2 r]]; [reflexivity| |destruct a; try reflexivity; destruct access; reflexivity].
+  destruct a; try reflexivity.
+  destruct access as [|ac acs]; [|reflexivity].
+  cbn [loop_arg conv vars].
   assert (He : existsb (fun v => negb (b_let v) && bstr_eqb (b_name v) key) (map conv_b (tc_vars st))
                = existsb (fun v => negb (vb_let v) && bstr_eqb (vb_name v) key) (tc_vars st)).
   { induction (tc_vars st) as [|v vs IH]; cbn [existsb map]; [reflexivity|]. rewrite IH. reflexivity. }
@@ -218,7 +221,7 @@ Proof.
   destruct n; cbn [check_body]; try exact Hdefault.
   - (* function *)
     change (chk ts params (view (NFunc p name args)) (conv st))
-      with (cbind (Checker.check_loop_func name (match args with a :: _ => ref_key a | [] => None end) (conv st))
+      with (cbind (Checker.check_loop_func name (loop_arg args) (conv st))
                   (chk_recurse (map (chk ts params) (map view args)))).
     rewrite check_loop_func_tie. destruct (Compile.check_loop_func st name args) as [e|].
     + destruct e; reflexivity.
